@@ -56,7 +56,8 @@ def gen(tier, rng):
         if rng.random() < 0.3:
             for ax in rng.sample(range(nd), rng.choice([1, min(2, nd)])):
                 tabs.append([ax, rng.choice([1, 2, 3]), rng.randrange(0, 5)])      # array axis, slope, intercept on cube 0
-        wcses = rng.choice(["extra_coords", "combined_wcs", "combined_wcs"]) if tabs else rng.choice(["wcs", "wcs", None, "list", "foreign", "combined_wcs"])
+        wcses = rng.choice(["extra_coords", "combined_wcs", "combined_wcs", "names:extra_coords", "names:combined_wcs"]) if tabs else \
+            rng.choice(["wcs", "wcs", None, "list", "foreign", "combined_wcs", "names:wcs", "names:combined_wcs"])
         own_shifts = [[rng.choice([0, 1, -2]) for _ in range(nd)] for _ in range(ncube)] if wcses == "foreign" else None
         all_none = rng.random() < 0.04
         none_tabs = [t for t in range(len(tabs)) if rng.random() < 0.25]
@@ -89,6 +90,9 @@ def run(case):
     shape = tuple(case["shape"])
     nd = len(shape)
     mode = case["wcses"]
+    names = isinstance(mode, str) and mode.startswith("names:")      # the attribute name once per cube, in a list
+    if names:
+        mode = mode.split(":")[1]
     tabs = case.get("tabs") or []
     cubes = []
     for k in range(len(case["shifts"])):
@@ -153,7 +157,7 @@ def run(case):
         kw["wcses"] = [HighLevelWCSWrapper(make_probe(case["A"], _cube_b(case, k), tw=list(range(nd)), tp=list(range(nd))))
                        for k in range(len(cubes))]
     elif mode is not None:
-        kw["wcses"] = mode
+        kw["wcses"] = [mode] * len(cubes) if names else mode
     why = []
     fresh = lambda: [list(p) for p in pts]          # every call gets its own point lists  # noqa
     item, r = None, None
@@ -218,6 +222,51 @@ def run(case):
                 if not np.array_equal(c1.data, c0.data[tuple(slice(a, b) for a, b in zip(starts, stops))]):
                     why.append(f"cube {k} of the result is not the source cube sliced with the common box")
                     break
+    # ---- independent statement of the box (not through the cubes' own crop helpers): nearest-pixel indices of the
+    #      points on every cube, smallest start and largest stop over the cubes, clipped to the array
+    halves = any((v * 2) % 2 == 1 for p in pix_pts for v in p)
+    if not why and exc is None and all_on and not (tabs and halves):
+        ind = []
+        for a in range(nd):
+            px = nd - 1 - a
+            if a not in touched:
+                ind.append((0, shape[a]))
+                continue
+            los, his = [], []
+            for k in range(len(cubes)):
+                idxs = [int(np.floor(float(p[px] - case["shifts"][k][px]) + 0.5)) for p in pix_pts]
+                lo = max(min(idxs), 0)
+                hi = max(min(max(idxs) + 1, shape[a]), lo)
+                los.append(lo)
+                his.append(hi)
+            ind.append((min(los), max(his)))
+        got = [(it.indices(shape[a])[0], it.indices(shape[a])[1]) for a, it in enumerate(item[1:])]
+        if got != ind:
+            why.append(f"common box {got} is not the box of the points' nearest-pixel indices over all cubes {ind}")
+    # ---- the result is a sequence in its own right: cropping it again with the very same arguments must give the
+    #      union of ITS cubes' own boxes
+    if not why and exc is None and mode not in ("list", "foreign") and len(r.data) > 0 and all(c.data.size for c in r.data):
+        try:
+            st2, sp2 = [None] * nd, [None] * nd
+            for cube in r.data:
+                ckw = {} if mode is None else {"wcs": getattr(cube, mode)}
+                own = (cube._get_crop_item(*fresh(), keepdims=True, **ckw) if use_objects
+                       else cube._get_crop_by_values_item(*fresh(), keepdims=True, **ckw))
+                for a in range(nd):
+                    lo, hi, _ = own[a].indices(cube.data.shape[a])
+                    st2[a] = lo if st2[a] is None else min(st2[a], lo)
+                    sp2[a] = hi if sp2[a] is None else max(sp2[a], hi)
+            own_ok = True
+        except Exception:  # noqa
+            own_ok = False
+        if own_ok:
+            try:
+                item2 = r._get_sequence_crop_item(*fresh(), crop_by_values=not use_objects, **kw)
+                exp2 = (slice(0, len(r.data)),) + tuple(slice(a, b) for a, b in zip(st2, sp2))
+                if tuple(item2) != exp2:
+                    why.append(f"cropping the result again with the same arguments gives {item2}, its cubes' own boxes give {exp2}")
+            except Exception as e:  # noqa
+                why.append(f"cropping the result again with the same arguments raised {exc_name(e)}")
     return {"out": out, "oracle": {"ok": not why, "why": "; ".join(why[:3]), "finding": None},
             "world": [[None if i in none_w else [Fr(float(x)).numerator, Fr(float(x)).denominator] for i, x in enumerate(w)] for w in wcs_world]}
 
